@@ -1,6 +1,6 @@
 CONSTANTS
   Layouts = {"TD1", "TD2", "TD3"}
-  Nums = {"A", "C"}
+  Nums = {"A", "C", "E"}
   Dobs = {"A"}
   Exps = {"A"}
   Opts = {"A", "N"}
